@@ -2,7 +2,9 @@
 //! by a two-node scenario, over a recording in-memory `KVStoreSync`; crash-recovery at every store
 //! operation boundary; and the open hypothesis H1 (asynchronous persister, out-of-order durability).
 //!
-//! usage: h_mup sync <seed> <maximum_pending_updates> <n_payments> <max_crash_points> [<n_fault_scripts>]
+//! usage: h_mup sync <seed> <maximum_pending_updates> <n_payments> <max_crash_points> [<n_fault_scripts> [<finale 0|1>]]
+//!        (finale: funding spend seen by the ChainMonitor only, an update the monitor REFUSES, post-close preimage
+//!         updates; `R mark`, `R final` lines; env H_MUP_DUMP=<dir> dumps the two monitors of the final comparison)
 //!        h_mup h1 <seed>
 //! All result lines start with "R " (the test logger floods stdout).
 //!   R calls <abstract persister calls>        N:<id>  U:<update_id|->:<monitor_id>  C:<lazy 0|1>
